@@ -45,6 +45,9 @@ pub fn entry_points() -> Vec<(&'static str, u8, Draw)> {
         ("crypto_secretstream init_push header", 0, || { let mut st = cs::State::new(); let mut h = [0u8; 24]; cs::crypto_secretstream_xchacha20poly1305_init_push(&mut st, &mut h, &[1u8; 32]); h.to_vec() }),
         ("DryocStream::init_push header", 0, || { let k = StackByteArray::<32>::from(&[1u8; 32]); let (_s, h): (_, dryoc::dryocstream::Header) = dryoc::dryocstream::DryocStream::init_push(&k); h.as_slice().to_vec() }),
         ("PwHash::hash salt", 1, || { let cfg = dryoc::pwhash::Config::interactive().with_opslimit(1).with_memlimit(8192); let p = dryoc::pwhash::PwHash::<Vec<u8>, Vec<u8>>::hash(b"pw", cfg).unwrap(); let (_h, s, _c) = p.into_parts(); s }),
+        ("PwHash::hash salt (salt_length 8)", 1, || { let cfg = dryoc::pwhash::Config::interactive().with_opslimit(1).with_memlimit(8192).with_salt_length(8); let p = dryoc::pwhash::PwHash::<Vec<u8>, Vec<u8>>::hash(b"pw", cfg).unwrap(); let (_h, s, _c) = p.into_parts(); s }),
+        ("PwHash::hash salt (salt_length 17)", 1, || { let cfg = dryoc::pwhash::Config::interactive().with_opslimit(1).with_memlimit(8192).with_salt_length(17); let p = dryoc::pwhash::PwHash::<Vec<u8>, Vec<u8>>::hash(b"pw", cfg).unwrap(); let (_h, s, _c) = p.into_parts(); s }),
+        ("PwHash::hash salt (salt_length 64)", 1, || { let cfg = dryoc::pwhash::Config::interactive().with_opslimit(1).with_memlimit(8192).with_salt_length(64).with_hash_length(64); let p = dryoc::pwhash::PwHash::<Vec<u8>, Vec<u8>>::hash(b"pw", cfg).unwrap(); let (_h, s, _c) = p.into_parts(); s }),
         ("PwHash::hash_with_defaults salt", 2, || { let p = dryoc::pwhash::PwHash::hash_with_defaults(b"pw").unwrap(); let (_h, s, _c) = p.into_parts(); s }),
         ("PwHash::hash_interactive salt", 2, || { let p = dryoc::pwhash::PwHash::<Vec<u8>, Vec<u8>>::hash_interactive(b"pw").unwrap(); let (_h, s, _c) = p.into_parts(); s }),
         ("crypto_pwhash_str salt", 1, || { let s = cp::crypto_pwhash_str(b"pw", 1, 8192).unwrap(); let parts: Vec<&str> = s.split('$').collect(); b64dec(parts[parts.len() - 2]) }),
